@@ -90,6 +90,16 @@ var (
 	xposMode = false
 )
 
+// idsSetup: while the pass "ids" runs, every instance starts from a NON-INITIAL state reached by real
+// calls: Init, proposal 1 by a with a very long voting period, proposals 2..9 proposed and thawed by a.
+// The next proposal gets id 10, whose decimal spelling extends that of the open proposal 1.
+var idsSetup = false
+
+const (
+	xlStop    = 19 // the setup takes 17 blocks after the Propose of 1 was built: 1 stops two blocks later
+	xlTrigger = 20
+)
+
 func setXpos(on bool) {
 	xposMode = on
 	bktTdpos = "$tdpos"
@@ -455,6 +465,22 @@ func newInst(cnt *counters, col *collector, alpha string, depths ...int) *inst {
 	}
 	i.cur = readTables(w)
 	i.tdposOld = i.cur.Raw[bktTdpos]
+	if idsSetup {
+		i.maxProps = 11
+		setup := []string{"init", "propose:a:x"}
+		for k := 2; k <= 9; k++ {
+			setup = append(setup, "propose:a", fmt.Sprintf("thaw:%d:a", k))
+		}
+		for _, ev := range setup {
+			if obs := i.Apply(ev); !strings.HasPrefix(obs, "ok") {
+				core.HarnessError("c19: ids setup: %s => %s", ev, obs)
+			}
+		}
+		if i.cur.Raw[bktProposal]["id"] != "9" || i.cur.status("1") != "voting" {
+			core.HarnessError("c19: ids setup: latest id %q, status of 1 %q", i.cur.Raw[bktProposal]["id"], i.cur.status("1"))
+		}
+		i.applied = nil
+	}
 	return i
 }
 
@@ -616,6 +642,9 @@ func (i *inst) request(ev string) (*step, *protos.InvokeRequest) {
 		stop, trig := tipH+shortStop, tipH+shortTrigger
 		if len(f) == 3 && f[2] == "l" {
 			stop, trig = tipH+longStop, tipH+longTrigger
+		}
+		if len(f) == 3 && f[2] == "x" {
+			stop, trig = tipH+xlStop, tipH+xlTrigger
 		}
 		req.Args["proposal"] = []byte(proposalJSON(stop, trig))
 	case "vote": // vote:p:b:amt ; amt 'pass' = what the proposal still lacks to reach min_vote_percent (at least 1)
@@ -1029,6 +1058,19 @@ func (i *inst) enabledObligations() []string {
 	evs := []string{"tick"}
 	ids := i.proposalIDs()
 	n, _ := strconv.Atoi(i.cur.Raw[bktProposal]["id"])
+	if idsSetup {
+		// reduced alphabet: only proposals that are still voting, one kind of Propose
+		if n < i.maxProps {
+			evs = append(evs, "propose:b:l")
+		}
+		for _, p := range ids {
+			if i.cur.status(p) != "voting" {
+				continue
+			}
+			evs = append(evs, "vote:"+p+":a:500", "vote:"+p+":b:500", "thaw:"+p+":a", "thaw:"+p+":b")
+		}
+		return evs
+	}
 	if n < i.maxProps {
 		evs = append(evs, "propose:a", "propose:a:l", "propose:b", "propose:b:l")
 	}
@@ -1728,6 +1770,9 @@ func caseOf(hist []string) map[string]interface{} {
 	if xposMode {
 		c["consensus"] = "xpos" // TDPoS with bft_config: methods live in $xpos
 	}
+	if idsSetup {
+		c["setup"] = "ids" // the history starts after: init, propose:a:x, (propose:a, thaw:k:a) for k = 2..9
+	}
 	if nu := namesUsed(hist); len(nu) > 0 {
 		c["account_name_arguments"] = nu // token -> the string sent (Go-quoted)
 	}
@@ -1780,7 +1825,13 @@ func run(tier core.Tier) *core.Report {
 		xpDepth = 4
 	}
 	cfg5 := xplore.Config{Name: "c19/xpos", New: func() xplore.Instance { return newInst(cnt, col, "full", 1, 1) }, MaxDepth: xpDepth, Report: rep}
-	var st, st2, st3, st4, st5 xplore.Stats
+	// pass "ids": overlapping life cycles of proposals 1 and 10, 11 (see idsSetup)
+	idDepth := 4
+	if tier == core.Thorough {
+		idDepth = 5
+	}
+	cfg6 := xplore.Config{Name: "c19/ids", New: func() xplore.Instance { return newInst(cnt, col, "obligations") }, MaxDepth: idDepth, Report: rep}
+	var st, st2, st3, st4, st5, st6 xplore.Stats
 	if tier == core.Thorough {
 		// the cheaper passes first: the full pass may use up the budget
 		st3 = xplore.Explore(cfg3)
@@ -1796,6 +1847,9 @@ func run(tier core.Tier) *core.Report {
 	setXpos(true)
 	st5 = xplore.Explore(cfg5)
 	setXpos(false)
+	idsSetup = true
+	st6 = xplore.Explore(cfg6)
+	idsSetup = false
 	// one concrete trace with its observations as the first sample
 	sample := []string{"init", "propose:a", "vote:1:a:all", "vote:1:b:500", "tick", "xfer:a>b:all"}
 	obs, _ := xplore.Replay(func() xplore.Instance { return newInst(&counters{m: map[string]int{}}, nil, "full") }, sample)
@@ -1813,6 +1867,8 @@ func run(tier core.Tier) *core.Report {
 	st3.Fill(rep, "names.")
 	st4.Fill(rep, "obligations.")
 	st5.Fill(rep, "xpos.")
+	st6.Fill(rep, "ids.")
+	rep.Set("ids.rule", fmt.Sprintf("pass 'ids': every instance first performs, by real calls, Init, Propose by a with voting until tip+%d (proposal 1), and Propose + Thaw by a for proposals 2..9 (17 blocks); then all sequences of length <= %d over block ticks, Propose by b (long period; ids 10, 11), Vote(p, a|b, 500) and Thaw(p, a|b) for every proposal still voting. Proposal 1 is tallied in the second block after the setup, while proposals whose decimal id extends '1' are open; all oracles as in pass 'obligations'", xlStop, idDepth))
 	// and one trace of the obligations pass: a proposal passes, a voter locks for a second one before the trigger
 	sample4 := []string{"init", "propose:a", "vote:1:b:500", "vote:1:a:pass", "propose:b:l", "tick"}
 	obs4, _ := xplore.Replay(func() xplore.Instance { return newInst(&counters{m: map[string]int{}}, nil, "full") }, sample4)
@@ -1918,7 +1974,7 @@ func run(tier core.Tier) *core.Report {
 	rep.Set("obligations.vacuity_guards", obligGuards)
 	rep.Set("obligations.rule", fmt.Sprintf("obligations dimension: the harness keeps its own ledger of what every account has locked for which proposal, from the committed calls alone (Propose: deposit %d of the proposer; Vote(p, n): n of the voter; Thaw(p) by the proposer: its deposit is released once; the contract's lock records are not read). After EVERY transition of EVERY pass (and every committed sweep call) the oracle demands for every account: locked[ordinary] >= sum of its ledger entries for the proposals whose stored status is still 'voting' (c19.lock_below_open_obligations.<call kind | timer_task>, flagged where the shortfall opens or widens). The ledger is part of the state key. Pass 'obligations' enumerates all sequences of length <= %d over Init, Propose by a|b with the short (stop tip+%d, trigger tip+%d) or the long (tip+%d / tip+%d) voting period while fewer than %d proposals exist, Vote(p, a|b, 500 | 'pass' = what p lacks to reach %d%% of the supply = %d), Thaw(p, a|b) - offered again after it succeeded and for every status - and block ticks; the timer tasks of both heights (CheckVoteResult, Trigger) run in the blocks of those heights, after the block's call. vacuity_guards count, over the ordinary transitions of all passes: states in which one account owes two open proposals, repeated Thaw calls (by outcome; '_while_caller_owes_another_open_proposal': the class in which a second release would hit another proposal's tokens), blocks whose tally made a proposal pass / rejected it, blocks that ran the Trigger of a passed proposal, and those among them in which a voter of the triggered proposal owes another open proposal (at least as much as its record: a second release of the record would succeed)", proposalDeposit, obDepth, shortStop, shortTrigger, longStop, longTrigger, obProps, minVotePercent, passThreshold))
 	rep.Set("bound", fmt.Sprintf("pass 'obligations': see obligations.rule (length <= %d, <= %d proposals, no sweeps); pass 'full': all call sequences of length <= %d over Init, Transfer(from,to in {a,b,c fresh} incl. to=from; 0,1,500,1000,all,all+1 and, with locks, available / available+1), Propose(a|b), Vote(p,a|b;0,500,all), Thaw(p,a|b), block ticks (timer tasks: CheckVoteResult / Trigger), TDPoS nominate / vote / revokeVote / revokeNominate (1,500,all; revokes naming the tip or the height before it), direct Lock / UnLock, and as last call of every sequence each call of the amount sweep (amount_sweep.rule); pass 'proposal': length <= %d over Init, Transfer a<->b (500, all | available, available+1), Propose, Vote (500, all), Thaw, ticks, amount sweep last; genesis quotas a=%d b=%d; pass 'names': length <= %d over Init, Transfer from a|b to a, b and the alias spellings %v (500, available), Propose(a), nominate(b,500), ticks, both sweeps last; every pass: the name sweep (name_sweep.rule) as last call of the short sequences; merged on the committed content of the governToken, proposal, timer and $tdpos buckets (+ height while timer tasks are pending, + the obligations ledger)", obDepth, obProps, depth, deep, quotaA, quotaB, nmDepth, namesPassTargets))
-	rep.Set("exhaustive", st.Completed && st2.Completed && st3.Completed && st4.Completed && st5.Completed)
+	rep.Set("exhaustive", st.Completed && st2.Completed && st3.Completed && st4.Completed && st5.Completed && st6.Completed)
 	rep.Set("xpos.rule", fmt.Sprintf("pass 'xpos': the alphabet of pass 'full' (length <= %d; amount and name sweeps after histories of <= 1 call) on a world whose TDPoS object is constructed with bft_config (XPoS): nominateCandidate / voteCandidate / revokeVote / revokeNominate are the methods registered under $xpos, their records live in the $xpos bucket and $govern_token.Lock / UnLock see the caller $xpos; all oracles unchanged", xpDepth))
 	rep.Assume("TDPoS kernel methods are the real ones: bcs/consensus/tdpos.NewTdposConsensus (non-BFT) constructed on the world's contract manager and agent.NewLedgerAgent with a stub network (only PeerInfo is used); the chain's own consensus stays 'single' (block production is done by the harness as Miner.packBlock does)")
 	rep.Assume("genesis has nofee=true (gas prices 0, transactions without UTXO inputs are admissible, as Chain.SubmitTx allows on such chains) so that fees do not bound the call sequences")
@@ -1931,12 +1987,15 @@ func replay(c json.RawMessage) (bool, string, error) {
 	var cs struct {
 		History   []string `json:"history"`
 		Consensus string   `json:"consensus"`
+		Setup     string   `json:"setup"`
 	}
 	if err := json.Unmarshal(c, &cs); err != nil {
 		return false, "", err
 	}
 	setXpos(cs.Consensus == "xpos")
 	defer setXpos(false)
+	idsSetup = cs.Setup == "ids"
+	defer func() { idsSetup = false }()
 	world.Init()
 	vhook.Capture()
 	cnt := &counters{m: map[string]int{}}
